@@ -89,6 +89,9 @@ class Sphere(Domain):
             center, radius = self._compute_center_and_radius(params, device)
             points = self._point_grid_in_box(n, radius.item(), device)
             points_inside = self._get_points_inside(points, radius.item())
+            if len(points_inside) > n:  # the box grid can contain too many points
+                keep = torch.randperm(len(points_inside), device=device)[:n]
+                points_inside = points_inside[keep]
             points_inside += center
         else:
             points_inside = torch.empty((0, self.dim), device=device)
@@ -169,7 +172,7 @@ class SphereBoundary(BoundaryDomain):
         # Use Fibonacci-Sphere for radius = 1, and then scale this sphere
         phi = np.pi * (3.0 - np.sqrt(5.0))  # golden angle in radians
         index = torch.arange(0, n, device=device)
-        y = 1 - index / (n - 1) * 2  # y goes from 1 to -1
+        y = 1 - index / max(n - 1, 1) * 2  # y goes from 1 to -1
         current_radius = torch.sqrt(1 - y**2)
         theta = phi * index
         x = current_radius * torch.cos(theta)
